@@ -17,7 +17,8 @@ RULE = (
     "family 'fixed': one case = (changepoint subset returned by a user-defined detector, series over (-2,0,2), statistic, "
     "bounds); every changepoint subset x every series for n <= 5 (quick) / 6 (thorough) x {mean, median, np.std, np.var, user max, user "
     "range, positional first-last} x 5 bound pairs. family 'real': PELT / MovingWindow / SeededBinarySegmentation on every (0,4) series n <= 8/9 "
-    "and on 2 index kinds. Non-trivial = at least one segment is flagged and at least one is not, or two adjacent "
+    "and on 2 index kinds. family 'prefit': the same detectors with data-dependent fits (tuned thresholds, n-dependent "
+    "penalty), fitted on OTHER data before being wrapped, on every (0,4) series n <= 7/8. Non-trivial = at least one segment is flagged and at least one is not, or two adjacent "
     "segments are flagged."
 )
 ASSUMPTIONS = [
@@ -48,7 +49,7 @@ def objhash(o):
     return c.digest()
 
 
-def check(acc, case, inner, x, stat, lo, hi, index="range"):
+def check(acc, case, inner, x, stat, lo, hi, index="range", prefit=None):
     from skchange.anomaly_detectors import StatThresholdAnomaliser
 
     acc.ev()
@@ -57,6 +58,10 @@ def check(acc, case, inner, x, stat, lo, hi, index="range"):
         with core.case_timer():
             X = dets.frame(x, index)
             n = len(X)
+            if prefit is not None:
+                # the user's detector has been used before: fitted on OTHER data
+                inner.fit(dets.frame(prefit, "range"))
+            was_fitted = bool(inner.is_fitted)
             h0 = objhash(inner)
             p0 = repr(sorted((k, repr(v)) for k, v in inner.get_params(deep=True).items()))
             sta = StatThresholdAnomaliser(inner, stat=STATS[stat], stat_lower=lo, stat_upper=hi)
@@ -82,8 +87,8 @@ def check(acc, case, inner, x, stat, lo, hi, index="range"):
             probs = dets.wellformed(y, "collective", n)
             if probs:
                 acc.violation("malformed-output", case, f"{probs[:2]}", key)
-            if inner.is_fitted:
-                acc.violation("user-detector-fitted", case, "the detector passed by the user is fitted after StatThresholdAnomaliser.fit", key)
+            if bool(inner.is_fitted) != was_fitted:
+                acc.violation("user-detector-fitted", case, "the fitted state of the detector passed by the user changed in StatThresholdAnomaliser.fit", key)
             if objhash(inner) != h0 or repr(sorted((k, repr(v)) for k, v in inner.get_params(deep=True).items())) != p0:
                 acc.violation("user-detector-altered", case, "the detector passed by the user was altered", key)
             if getattr(sta, "change_detector_", None) is inner:
@@ -107,8 +112,21 @@ def make_real(name):
             "SBS": lambda: cd.SeededBinarySegmentation(threshold_scale=0.3, min_segment_length=1, max_interval_length=8)}[name]()
 
 
+def make_tuned(name):
+    """Change detectors whose fit depends on the training data (tuned threshold / n-dependent penalty)."""
+    import skchange.change_detectors as cd
+    from skchange.costs import L2Cost
+
+    return {"PELT": lambda: cd.PELT(L2Cost(), penalty_scale=0.3, min_segment_length=1),
+            "MW": lambda: cd.MovingWindow(bandwidth=2, threshold_scale=None, level=0.3),
+            "SBS": lambda: cd.SeededBinarySegmentation(threshold_scale=None, level=0.3, min_segment_length=1, max_interval_length=8)}[name]()
+
+
 def check_case(acc, case):
     acc.sample(case)
+    if case["fam"] == "prefit":
+        check(acc, case, make_tuned(case["det"]), case["x"], case["stat"], case["lo"], case["hi"], prefit=case["prefit"])
+        return
     if case["fam"] == "fixed":
         check(acc, case, FixedChangeDetector(cpts=tuple(case["cpts"])), case["x"], case["stat"], case["lo"], case["hi"], case.get("index", "range"))
     else:
@@ -132,6 +150,12 @@ def cases(tier, seed):
         for xs in itertools.product((-2, 0, 2), repeat=5):
             for ik in ("offset", "datetime", "period", "step2"):
                 yield {"fam": "fixed", "cpts": list(cps), "x": list(xs), "stat": "mean", "lo": -1.0, "hi": 1.0, "index": ik}
+    # the user's detector was fitted on other data before being wrapped (its fit is data dependent)
+    other = {"PELT": [0.0, 4.0] * 12, "MW": [0.0, 0.0, 9.0, 9.0, 0.0, 0.0, 9.0, 9.0, 0.0, 0.0, 9.0, 9.0], "SBS": [0.0, 9.0, 0.0, 9.0, 0.0, 9.0, 0.0, 9.0, 0.0, 9.0]}
+    for det in ("PELT", "MW", "SBS"):
+        for n in range(4, (7 if q else 8) + 1):
+            for xs in itertools.product((0, 4), repeat=n):
+                yield {"fam": "prefit", "det": det, "x": list(xs), "stat": "mean", "lo": 1.0, "hi": 3.0, "prefit": other[det]}
     a, b = util.seed_affine(seed)
     for det in ("PELT", "MW", "SBS"):
         for n in range(4, (8 if q else 9) + 1):
